@@ -95,6 +95,7 @@ def monitor(script):
     defs = {}              # id -> (prev, bits, time)
     maxdepth = 144
     main_net = False
+    split_on = True
     accepted = {0}         # ids the repository has accepted (session) / restored
     invalid = set()        # currently marked ids
     chain = [0]            # best chain reconstructed from the subscriber stream (ids by height)
@@ -302,6 +303,7 @@ def monitor(script):
         if verb == "init":
             maxdepth = int(a.get("maxdepth", 144))
             main_net = a.get("net") == "main"
+            split_on = a.get("split", "on") != "off"
         elif verb == "hdr":
             defs[int(a["id"])] = (int(a["prev"]), int(a["bits"]), int(a["time"]))
             if a.get("blk") == "1":
@@ -325,6 +327,17 @@ def monitor(script):
             if o.get("evdiff") == "1":
                 m.hit("C07:subscribers-differ", "two subscribers received different streams for one submission")
             apply_stream(evs)
+            # ---- C03: only the BSV chain (main net, split protection on)
+            if main_net and split_on:
+                th = height(i)
+                if v == "ok" and i == 900004:
+                    m.hit("C03:foreign-accepted", f"the BCH split header was accepted (`{op}`)")
+                if v == "ok" and th == 556767 and i != 900005:
+                    m.hit("C03:non-bsv-at-split-height", f"header {i} was accepted at height 556767 although it is not the BSV split header")
+                if i == 900005 and v != "ok" and i in defs and defs[i][0] in accepted and i not in invalid:
+                    m.hit("C03:bsv-refused", f"the BSV split header was refused with `{v}` although its parent is held")
+            if v == "toodeep" and i in accepted and not relearn and i not in dropped:
+                m.hit("C08:known-refused", f"re-submission of the accepted header {i} was answered `toodeep` instead of already known")
             if v == "ok":
                 was = i in accepted
                 if i in invalid and not was:
@@ -497,6 +510,10 @@ def monitor(script):
                         and height(target) is not None and height(target) < len(chain) and chain[height(target)] == target
                         and form == "header"):
                     m.hit("C18:rejected-honest", f"`{op}` is an honest proof for a best-chain header but was answered {o['r']}")
+        elif verb == "verify" and "v" in o:
+            i = int(a["id"])
+            if main_net and ((o["v"] == "ok") != (i == 900005)):
+                m.hit("C03:verify", f"VerifyHeader({i}) answered `{o['v']}`: only the BSV split header (900005) verifies a peer")
         elif verb == "vloc" and "loc" in o:
             ids = parse_list(o["loc"])
             if len(set(ids)) != len(ids):
